@@ -514,6 +514,10 @@ func installWedge(t *testing.T, prop string) {
 	onWedge = func(sc Scenario) {
 		out := &vstat.Outcome{}
 		out.Violate("C02", "wedged", "the scenario did not become quiescent within %s of real time: a goroutine is blocked on a lock whose holder never proceeds", wedgeAfter)
+		if prop != "C02" {
+			// every property checked here presupposes that requests are answered
+			out.Violate(prop, "wedged", "the scenario did not become quiescent within %s of real time (some request can never complete): a goroutine is blocked on a lock whose holder never proceeds", wedgeAfter)
+		}
 		rec.Record(sc, out)
 		vstat.FlushAll()
 		fmt.Println("WEDGED scenario recorded")
@@ -557,7 +561,7 @@ func TestC02(t *testing.T) {
 func TestC04(t *testing.T) {
 	installWedge(t, "C04")
 	p := &profile{prop: "C04", minKeys: 1, maxKeys: 1, methods: []string{"GET", "GET", "GET", "HEAD"},
-		stores: []string{""}, cacheSizes: []int{1000}, hfps: []int{0, 1}, proxyTimeouts: []int{0},
+		stores: []string{"", "", "mem", "lazy"}, cacheSizes: []int{1000}, hfps: []int{0, 1}, proxyTimeouts: []int{0},
 		lifetimes: []int{1, 2, 3, 4, 5, 6, 7, 8, 9, 10, 60, 3600, 31536000}, outcomes: []string{"cacheable", "cacheable", "cacheable", "cacheable", "cacheable", "uncacheable"},
 		parkPct: 5, w: [6]int{40, 25, 30, 3, 0, 0}, minOps: 6, maxOps: 50,
 		macros: []string{"epochs"}, macroPct: 15, ageChoices: true,
@@ -570,7 +574,7 @@ func TestC04(t *testing.T) {
 func TestC07(t *testing.T) {
 	installWedge(t, "C07")
 	p := &profile{prop: "C07", minKeys: 1, maxKeys: 2, methods: []string{"GET", "GET", "GET", "HEAD"},
-		stores: []string{""}, cacheSizes: []int{1000}, hfps: []int{0, -5, 1, 2, 5, 60, 300}, proxyTimeouts: []int{0},
+		stores: []string{"", "", "lazy"}, cacheSizes: []int{1000}, hfps: []int{0, -5, 1, 2, 5, 60, 300}, proxyTimeouts: []int{0},
 		lifetimes: []int{1, 2, 5}, outcomes: []string{"cacheable", "uncacheable", "uncacheable", "transport_error", "status5xx"},
 		parkPct: 10, w: [6]int{45, 25, 22, 5, 0, 0}, minOps: 6, maxOps: 45,
 		macros: []string{"hfpBurst"}, macroPct: 15,
@@ -583,7 +587,7 @@ func TestC07(t *testing.T) {
 func TestC18(t *testing.T) {
 	installWedge(t, "C18")
 	p := &profile{prop: "C18", minKeys: 2, maxKeys: 4, methods: []string{"GET", "GET", "GET", "HEAD"},
-		twoServers: 70, stores: []string{"", "mem", "mem"}, cacheSizes: []int{1000}, hfps: []int{0, 2}, proxyTimeouts: []int{0},
+		twoServers: 70, stores: []string{"", "mem", "mem", "lazy"}, cacheSizes: []int{1000}, hfps: []int{0, 2}, proxyTimeouts: []int{0},
 		lifetimes: []int{2, 5, 60}, outcomes: []string{"cacheable", "cacheable", "cacheable", "uncacheable", "transport_error"},
 		parkPct: 20, w: [6]int{40, 25, 8, 10, 17, 0}, minOps: 6, maxOps: 45,
 		macros: []string{"purgeRace", "purgeFresh"}, macroPct: 15,
@@ -621,7 +625,7 @@ func TestC06(t *testing.T) {
 func TestC08Sim(t *testing.T) {
 	installWedge(t, "C08")
 	p := &profile{prop: "C08", minKeys: 10, maxKeys: 30, methods: []string{"GET", "GET", "GET", "HEAD"}, shardKeys: true,
-		stores: []string{"mem"}, cacheSizes: []int{8, 8, 16}, hfps: []int{0, 2, 5}, proxyTimeouts: []int{0},
+		stores: []string{"mem", "mem", "lazy"}, cacheSizes: []int{8, 8, 16}, hfps: []int{0, 2, 5}, proxyTimeouts: []int{0},
 		lifetimes: []int{2, 5, 60}, outcomes: []string{"cacheable", "cacheable", "cacheable", "uncacheable"},
 		parkPct: 5, w: [6]int{50, 32, 12, 3, 3, 0}, minOps: 12, maxOps: 120,
 		macros: []string{"evictReload"}, macroPct: 10, ageChoices: false,
